@@ -343,6 +343,109 @@ theorem all_exec_slice (s : Stmt) (keep : Ev → Bool) (P : List Ev → Bool)
   have := all_exec (slice keep s) P h ρ
   simpa [slice, exec_prune, exec_proj, Out.filter] using this
 
+/-! ### panic exits
+
+A designated class of events (`mp e`: user code is called — the handler chain, the NoRoute handler) may panic. The
+panic unwinds: the rest of the statement list is skipped, the deferred events of every enclosing scope run (innermost
+scope first, last deferred first), nothing else. `pexec ρ k` panics at the k-th such event it executes (`none`: never);
+`ppaths` enumerates every normal and every panic outcome; `pexec_mem_ppaths` is the soundness of that enumeration. -/
+
+/-- 0 running, 1 returned, 2 panicking -/
+structure POut where
+  trace : List Ev
+  st : Nat
+  defers : List Ev
+  deriving DecidableEq, Repr
+
+def pexec (mp : Ev → Bool) (ρ : Atom → Bool) : Stmt → Option Nat → POut × Option Nat
+  | .ev e, k =>
+    if mp e then
+      match k with
+      | some 0 => (⟨[e], 2, []⟩, none)
+      | some (n + 1) => (⟨[e], 0, []⟩, some n)
+      | none => (⟨[e], 0, []⟩, none)
+    else (⟨[e], 0, []⟩, k)
+  | .skip, k => (⟨[], 0, []⟩, k)
+  | .ret, k => (⟨[], 1, []⟩, k)
+  | .defer e, k => (⟨[], 0, [e]⟩, k)
+  | .seq a b, k =>
+    let ra := pexec mp ρ a k
+    if ra.1.st != 0 then ra else
+      let rb := pexec mp ρ b ra.2
+      (⟨ra.1.trace ++ rb.1.trace, rb.1.st, rb.1.defers ++ ra.1.defers⟩, rb.2)
+  | .ite c t e, k => if ρ c then pexec mp ρ t k else pexec mp ρ e k
+  | .scope s, k =>
+    let r := pexec mp ρ s k
+    (⟨r.1.trace ++ r.1.defers, if r.1.st == 2 then 2 else 0, []⟩, r.2)
+
+def ppaths (mp : Ev → Bool) : Stmt → List POut
+  | .ev e => ⟨[e], 0, []⟩ :: (if mp e then [⟨[e], 2, []⟩] else [])
+  | .skip => [⟨[], 0, []⟩]
+  | .ret => [⟨[], 1, []⟩]
+  | .defer e => [⟨[], 0, [e]⟩]
+  | .seq a b =>
+    (ppaths mp a).flatMap fun pa =>
+      if pa.st != 0 then [pa] else
+        (ppaths mp b).map fun pb => ⟨pa.trace ++ pb.trace, pb.st, pb.defers ++ pa.defers⟩
+  | .ite _ t e => ppaths mp t ++ ppaths mp e
+  | .scope s => (ppaths mp s).map fun p => ⟨p.trace ++ p.defers, if p.st == 2 then 2 else 0, []⟩
+
+/-- every execution, panicking anywhere or not at all, is one of the enumerated outcomes -/
+theorem pexec_mem_ppaths (mp : Ev → Bool) (ρ : Atom → Bool) (s : Stmt) :
+    ∀ k, (pexec mp ρ s k).1 ∈ ppaths mp s := by
+  induction s with
+  | ev e =>
+    intro k
+    by_cases h : mp e = true
+    · cases k with
+      | none => simp [pexec, ppaths, h]
+      | some n => cases n <;> simp [pexec, ppaths, h]
+    · simp [pexec, ppaths, h]
+  | skip => intro k; simp [pexec, ppaths]
+  | ret => intro k; simp [pexec, ppaths]
+  | defer e => intro k; simp [pexec, ppaths]
+  | seq a b iha ihb =>
+    intro k
+    simp only [pexec, ppaths, List.mem_flatMap]
+    refine ⟨(pexec mp ρ a k).1, iha k, ?_⟩
+    by_cases hs : ((pexec mp ρ a k).1.st != 0) = true
+    · simp [hs]
+    · simp only [hs, if_false, Bool.false_eq_true, List.mem_map]
+      exact ⟨(pexec mp ρ b (pexec mp ρ a k).2).1, ihb _, rfl⟩
+  | ite c t e iht ihe =>
+    intro k
+    simp only [pexec, ppaths, List.mem_append]
+    by_cases hc : ρ c = true
+    · simp only [hc, if_true]; exact Or.inl (iht k)
+    · simp only [hc, if_false, Bool.false_eq_true]; exact Or.inr (ihe k)
+  | scope s ih =>
+    intro k
+    simp only [pexec, ppaths, List.mem_map]
+    exact ⟨(pexec mp ρ s k).1, ih k, rfl⟩
+
+/-- lift: a check that holds on every enumerated outcome holds on every execution -/
+theorem all_pexec (mp : Ev → Bool) (s : Stmt) (P : POut → Bool) (h : (ppaths mp s).all P = true)
+    (ρ : Atom → Bool) (k : Option Nat) : P (pexec mp ρ s k).1 = true :=
+  List.all_eq_true.mp h _ (pexec_mem_ppaths mp ρ s k)
+
+/-- without a panic `pexec` is `exec` -/
+theorem pexec_none (mp : Ev → Bool) (ρ : Atom → Bool) (s : Stmt) :
+    pexec mp ρ s none = (⟨(exec ρ s).trace, if (exec ρ s).returned then 1 else 0, (exec ρ s).defers⟩, none) := by
+  induction s with
+  | ev e => by_cases h : mp e = true <;> simp [pexec, exec, h]
+  | skip => simp [pexec, exec]
+  | ret => simp [pexec, exec]
+  | defer e => simp [pexec, exec]
+  | seq a b iha ihb =>
+    simp only [pexec, exec, iha, ihb]
+    cases hr : (exec ρ a).returned <;> simp [hr]
+  | ite c t e iht ihe =>
+    simp only [pexec, exec]
+    by_cases hc : ρ c = true <;> simp [hc, iht, ihe]
+  | scope s ih =>
+    simp only [pexec, exec, ih]
+    cases (exec ρ s).returned <;> simp
+
 /-- number of paths (reported by the checks) -/
 def pathCount (s : Stmt) : Nat := (paths s).length
 
